@@ -90,6 +90,13 @@ def make_jobs(chk):
             n += 1
             jobs.append(SessionJob("e%d:budget:%d" % (n, w), bytes.fromhex("40" + sig64 + "21" + key33) + bytes([O["CHECKSIG"], O["DROP"], O["1"]]), [], [], "TAPSCRIPT",
                                    cmds=pat + ["steps"], cmp=CMP + ["weight"], weight=w))
+    # the 1000-element limit is checked after every exec'd operation, not once per command
+    for items, alt in ((998, 1), (999, 0), (997, 2), (1000, 0)):
+        for toks in ("OP_1 OP_1 OP_2DROP", "OP_1 OP_1 OP_1", "OP_1 OP_TOALTSTACK OP_1 OP_1", "OP_DUP OP_DUP OP_DROP OP_DROP", "OP_1", "OP_1 OP_DROP OP_1 OP_DROP", "00 00 OP_2DROP"):
+            for sv in ("BASE", "TAPSCRIPT"):
+                n += 1
+                jobs.append(SessionJob("e%d:stacklimit:%d" % (n, items), bytes([O["TOALTSTACK"]]) * alt + b"\x51", [b"\x07"] * (items + alt), [], sv,
+                                       cmds=["step"] * alt + ["exec " + toks, "steps"], cmp=CMP))
     # op-count budget shared between script and exec: near the limit
     base = b"\x51" + bytes([O["NOP"]]) * 150
     for extra in (49, 50, 51, 52):
